@@ -341,6 +341,12 @@ class Terms(object):
             ok, v = ctx.fold.try_eval(ast.Name(id=name, ctx=ast.Load()), func.mod, {})
             if ok:
                 return C(v)
+            vals = func.mod.assigns.get(name) or []
+            if len(vals) == 1 and depth <= self.max_depth and isinstance(vals[0], (ast.Call, ast.Attribute)) and not any(isinstance(x, (ast.Await, ast.Yield, ast.Lambda)) for x in ast.walk(vals[0])):
+                # a module-level object built once (`_PKCS1V15 = padding.PKCS1v15()`): what a read of the name denotes is what was built
+                t = self.term(func, None, vals[0], {}, depth + 1)
+                if t[0] != "opaque":
+                    return t
             return ("g", func.mod.name, name)
         if d.kind == "entry":
             # attribute of a parameter at function entry
